@@ -166,7 +166,16 @@ static vector<pair<const char*, size_t>> split(const string& d, vt::Rng& r, int 
 static void dump_cases(vt::Rng& r, bool quick, int shard, int nshards) {
   vector<uint64_t> starts = {0, 1, 5, 15, 16, 0xF8, 0xFFF8, 0xFFFFFFF8ULL, 0xFFFFFFFFFFFFF000ULL, 0xFFFFFFFFFFFFEFF3ULL, 0x100000000ULL - 3, 0x123456789AULL};
   vector<uint64_t> flagsets = {0, 2, 0x40 | 2, 0x20, 0x20 | 2, 0x100, 0x200 | 2, 0x400, 0x800 | 2 | 0x20, 4, 8 | 2, 4 | 8 | 0x40, 0x1000 | 4, 0x2000 | 8, 0x10 | 4, 0x2000 | 4, 0x1000 | 8, 0x10 | 8, 0x10 | 4 | 8 | 2};
-  int n = quick ? 260 : 4000;
+  int n = quick ? 400 : 4000;
+  // collapsing, small-scope: every pattern of all-zero / non-zero lines for 3..5 lines, aligned and unaligned starts
+  struct Forced {
+    int lines, pattern;
+    uint64_t start;
+  };
+  vector<Forced> forced;
+  for (int L = 3; L <= 5; L++)
+    for (int pat = 0; pat < (1 << L); pat++)
+      for (uint64_t st : {(uint64_t)0, (uint64_t)0xFFF5}) forced.push_back({L, pat, st});
   for (int i = 0; i < n; i++) {
     if (i % nshards != shard) {
       r.next();
@@ -193,10 +202,29 @@ static void dump_cases(vt::Rng& r, bool quick, int shard, int nshards) {
       if (shape == 2) data[total - 1] = 'Z';                                 // only the last line is non-zero
       len = total;
     }
+    if (i >= 40 && i < 40 + (int)forced.size()) {
+      const Forced& f = forced[i - 40];
+      start = f.start;
+      flags = 0x20 | (r.chance(50) ? 2 : 0);
+      size_t lo = start % 16;
+      len = f.lines * 16 - lo - (r.chance(70) ? 0 : r.below(16));
+      data.assign(len, 0);
+      for (int ln = 0; ln < f.lines; ln++)
+        if (f.pattern & (1 << ln)) {
+          size_t b = ln * 16 < (long)lo ? 0 : ln * 16 - lo, e = min<size_t>(len, (ln + 1) * 16 - lo);
+          if (b < e) data[b + r.below(e - b)] = (char)(1 + r.below(255));
+        }
+    }
     bool hasprev = r.chance(35);
     string prev = data;
     if (hasprev)
       for (int k = (int)r.below(6); k > 0 && len; k--) prev[r.below(len)] ^= (char)(1 + r.below(255));
+    if (i >= 40 && i < 40 + (int)forced.size() && r.chance(50)) {
+      // the previous version is (almost) all zero: a line collapses only if it is zero in BOTH versions
+      hasprev = true;
+      prev.assign(len, 0);
+      if (len && r.chance(40)) prev[r.below(len)] = (char)(1 + r.below(255));
+    }
     if (hasprev && r.chance(70)) flags |= 1;  // colour / diff mode
     if (!hasprev && r.chance(10)) flags |= 1;
     string status;
